@@ -17,15 +17,17 @@ def IndexOK (t : Table) : Prop :=
   (∀ k, bucketOf t.index k = positions (fun r => !isDom r && keyOf r == k) t.rs) ∧
   t.matched = positions isDom t.rs
 
+/-- one resource is good: its prefix is well formed and its sub-table (if any) satisfies `G` -/
+def ResGood (G : Table → Prop) : Res → Prop
+  | .sub pfx s => PfxWF pfx ∧ G s
+  | .dom _ s => G s
+  | .static pfx _ => PfxWF pfx
+  | _ => True
+
 /-- `IndexOK` at every nesting level (down to depth `f`), and well-formed prefixes -/
 def Good : Nat → Table → Prop
   | 0, _ => True
-  | f + 1, t => IndexOK t ∧ ∀ r ∈ t.rs,
-      match r with
-      | .sub pfx s => PfxWF pfx ∧ Good f s
-      | .dom _ s => Good f s
-      | .static pfx _ => PfxWF pfx
-      | _ => True
+  | f + 1, t => IndexOK t ∧ ∀ r ∈ t.rs, ResGood (Good f) r
 
 theorem flatMap_congr' {α β} (l : List α) (F G : α → List β) (h : ∀ a ∈ l, F a = G a) :
     l.flatMap F = l.flatMap G := by
@@ -61,9 +63,11 @@ theorem resolve_eq_linear (f : Nat) (t : Table) (q : Req) (hp : StartsSL q.path)
       | plain p rts => rfl
       | dyn o ps rts => rfl
       | static pfx rts =>
+        have hgr : PfxWF pfx := hgr
         have hu := underPrefix_of_key_mem_walk hp hgr hk
         simp [ansWith, ansSpecWith, hu]
       | sub pfx s =>
+        have hgr : PfxWF pfx ∧ Good f s := hgr
         have hu := underPrefix_of_key_mem_walk hp hgr.1 hk
         simp [ansWith, ansSpecWith, hu, ih s hgr.2]
       | dom rule s => simp [isDom] at hd
@@ -72,7 +76,9 @@ theorem resolve_eq_linear (f : Nat) (t : Table) (q : Req) (hp : StartsSL q.path)
       have ⟨hr1, hr2⟩ := List.mem_filter.mp hr
       have hgr := hrs r hr1
       cases r with
-      | dom rule s => simp [ansWith, ansSpecWith, ih s hgr]
+      | dom rule s =>
+        have hgr : Good f s := hgr
+        simp [ansWith, ansSpecWith, ih s hgr]
       | _ => simp [isDom] at hr2
     simp only [resolve, linear]
     rw [hm, atPositions_positions, List.map_congr_left hD]
@@ -95,5 +101,157 @@ theorem resolve_eq_linear (f : Nat) (t : Table) (q : Req) (hp : StartsSL q.path)
       have ⟨hr1, hr2⟩ := List.mem_filter.mp hr
       simp only [Bool.and_eq_true, Bool.not_eq_true', beq_iff_eq] at hr2
       exact hA r hr1 hr2.1 (by rw [hr2.2]; exact hk)
+
+
+/-! ## registration operations keep the index consistent -/
+
+theorem empty_indexOK : IndexOK Table.empty := by
+  constructor
+  · intro k; simp [Table.empty, Table.index, Table.rs, bucketOf, positions]
+  · simp [Table.empty, Table.matched, Table.rs, positions]
+
+/-- `register_resource` (append + `index_resource`, or append to the matched list) preserves
+index consistency -/
+theorem register_indexOK (t : Table) (r : Res) (h : IndexOK t) : IndexOK (t.register r) := by
+  obtain ⟨hidx, hm⟩ := h
+  cases t with
+  | mk rs idx m =>
+    simp only [Table.index, Table.rs, Table.matched] at hidx hm
+    unfold Table.register
+    cases hd : isDom r with
+    | true =>
+      simp only [if_true, Table.rs, Table.index, Table.matched]
+      constructor
+      · intro k
+        simp only [Table.index, Table.rs, positions_append_singleton, hd, hidx k]
+        simp
+      · simp only [Table.matched, Table.rs, positions_append_singleton, hd, hm, if_true]
+    | false =>
+      simp only [Bool.false_eq_true, if_false, Table.rs, Table.index, Table.matched]
+      constructor
+      · intro k
+        simp only [Table.index, Table.rs, positions_append_singleton, hd, bucketOf_indexAdd, hidx k]
+        by_cases hk : k = keyOf r
+        · subst hk; simp
+        · have : (keyOf r == k) = false := by simpa using fun e => hk e.symm
+          simp [hk, this]
+      · simp only [Table.matched, Table.rs, positions_append_singleton, hd, hm]
+        simp
+
+theorem empty_good (f : Nat) : Good f Table.empty := by
+  cases f with
+  | zero => trivial
+  | succ f => exact ⟨empty_indexOK, by simp [Table.empty, Table.rs]⟩
+
+/-- registering one more resource keeps a good table good, if the new resource is good -/
+theorem register_good (f : Nat) (t : Table) (r : Res) (h : Good (f + 1) t)
+    (hr : ResGood (Good f) r) : Good (f + 1) (t.register r) := by
+  refine ⟨register_indexOK t r h.1, ?_⟩
+  intro x hx
+  have hrs : (t.register r).rs = t.rs ++ [r] := by
+    cases t; unfold Table.register; split <;> rfl
+  rw [hrs] at hx
+  rcases List.mem_append.mp hx with hx | hx
+  · exact h.2 x hx
+  · simp only [List.mem_singleton] at hx; subst hx; exact hr
+
+theorem dropLast_append_of_getLast? {α} (l : List α) (a : α) (h : l.getLast? = some a) :
+    l.dropLast ++ [a] = l := by
+  have hne : l ≠ [] := by intro e; simp [e] at h
+  have := List.dropLast_concat_getLast hne
+  rw [List.getLast?_eq_some_getLast hne] at h
+  injection h with h
+  rw [← h]; exact this
+
+theorem withRoutes_isDom (r : Res) (rts : Routes) : isDom (r.withRoutes rts) = isDom r := by
+  cases r <;> rfl
+
+theorem withRoutes_keyOf (r : Res) (rts : Routes) : keyOf (r.withRoutes rts) = keyOf r := by
+  cases r <;> rfl
+
+theorem fresh_good (f : Nat) (rq : List (Str × Str)) (t t' : Table) (m path : Str) (hid : Nat)
+    (h : Good (f + 1) t) (he : addRoute.fresh rq t m path hid = .ok t') : Good (f + 1) t' := by
+  unfold addRoute.fresh at he
+  split at he
+  · injection he with he; subst he
+    exact register_good f t _ h trivial
+  · cases hc : compile rq path with
+    | error e => simp [hc, bind, Except.bind] at he
+    | ok ps =>
+      simp only [hc, bind, Except.bind, pure, Except.pure] at he
+      injection he with he; subst he
+      exact register_good f t _ h trivial
+
+/-- `add_route` (= `add_resource` + `Resource.add_route`, including the re-use of the last
+resource) keeps the table good -/
+theorem addRoute_good (f : Nat) (rq : List (Str × Str)) (t t' : Table) (m path : Str) (hid : Nat)
+    (h : Good (f + 1) t) (he : addRoute rq t m path hid = .ok t') : Good (f + 1) t' := by
+  unfold addRoute at he
+  split at he
+  · cases he
+  · split at he
+    · next last hl =>
+      split at he
+      · next hraw =>
+        split at he
+        · cases he
+        · injection he with he; subst he
+          have hrs : t.rs.dropLast ++ [last] = t.rs := dropLast_append_of_getLast? _ _ hl
+          obtain ⟨⟨hidx, hm⟩, hmem⟩ := h
+          refine ⟨⟨?_, ?_⟩, ?_⟩
+          · intro k
+            have := hidx k
+            rw [← hrs, positions_append_singleton] at this
+            simp only [Table.index, Table.rs, positions_append_singleton, withRoutes_isDom, withRoutes_keyOf]
+            exact this
+          · have := hm
+            rw [← hrs, positions_append_singleton] at this
+            simp only [Table.matched, Table.rs, positions_append_singleton, withRoutes_isDom]
+            exact this
+          · intro x hx
+            simp only [Table.rs] at hx
+            rcases List.mem_append.mp hx with hx | hx
+            · exact hmem x (by rw [← hrs]; exact List.mem_append_left _ hx)
+            · simp only [List.mem_singleton] at hx
+              subst hx
+              cases last <;> first | trivial | simp [rawMatch] at hraw
+      · exact fresh_good f rq t t' m path hid h he
+    · exact fresh_good f rq t t' m path hid h he
+
+/-- `add_static` keeps the table good (the re-quoted prefix is assumed well formed) -/
+theorem addStatic_good (f : Nat) (t t' : Table) (pfx q : Str) (hid : Nat) (h : Good (f + 1) t)
+    (hq : PfxWF q) (he : addStatic t pfx q hid = .ok t') : Good (f + 1) t' := by
+  unfold addStatic at he
+  simp only [] at he
+  repeat' split at he
+  all_goals first | (injection he with he; subst he; exact register_good f t _ h hq) | cases he
+
+/-- `add_domain` keeps the table good -/
+theorem addDomain_good (f : Nat) (t s : Table) (rule : Rule) (h : Good (f + 1) t) (hs : Good f s) :
+    Good (f + 1) (addDomain t rule s) := register_good f t _ h hs
+
+/-- `add_subapp`, parent side: registering the (already prefixed) sub-application keeps the
+parent good.  (*partial*: that the re-indexing loop `_add_prefix_to_resources` leaves the
+sub-application's own index consistent — `Good f s'` — is a hypothesis here; it is exercised by the
+correspondence run, which compares every nested `_resource_index` with the model's.)
+
+Full statement, not proved:
+`Good (f+1) t → Good f s → PfxWF q → addSubapp fuel t pfx q s = .ok t' → Good (f+1) t'`. -/
+theorem addSubapp_good_partial (f fuel : Nat) (t t' s : Table) (pfx q : Str) (h : Good (f + 1) t)
+    (hq : PfxWF q)
+    (hs : ∀ s', addPrefixTable fuel (rstripSlash pfx) s = .ok s' → Good f s')
+    (he : addSubapp fuel t pfx q s = .ok t') : Good (f + 1) t' := by
+  unfold addSubapp at he
+  simp only at he
+  split at he
+  · cases he
+  · split at he
+    · cases he
+    · cases hp : addPrefixTable fuel (rstripSlash pfx) s with
+      | error e => simp [hp, bind, Except.bind] at he
+      | ok s' =>
+        simp only [hp, bind, Except.bind, pure, Except.pure] at he
+        injection he with he; subst he
+        exact register_good f t _ h ⟨hq, hs s' hp⟩
 
 end Aio.C14
